@@ -98,6 +98,10 @@ func c12Amf(c *core.Ctx, k *core.Case) {
 			kk := &core.Case{Oracle: "amf", Target: "nasConvert.AmfIdToNasWithError", I: []int64{int64(v), int64(v) + 1}}
 			c.Fail(kk, "amfid-wire", fmt.Sprintf("AmfIdToNasWithError(%q) = (%#x,%#x,%#x,%v), want (%#x,%#x,%#x)", want, r2, s2, p2, err, region, set, ptr))
 		}
+		if r3, s3, p3 := nasConvert.AmfIdToNas(want); r3 != region || s3 != set || p3 != ptr {
+			kk := &core.Case{Oracle: "amf", Target: "nasConvert.AmfIdToNas", I: []int64{int64(v), int64(v) + 1}}
+			c.Fail(kk, "amfid-wire", fmt.Sprintf("AmfIdToNas(%q) = (%#x,%#x,%#x), want (%#x,%#x,%#x)", want, r3, s3, p3, region, set, ptr))
+		}
 		if v&0xffff == 0 {
 			c.J.Tick()
 		}
